@@ -71,3 +71,137 @@ def h_restart_twin(maxR: int, maxT: int, t0: int, ds: List[int], acks: List[bool
     post: _
     """
     return _run(maxR, maxT, t0, ds, acks, True)
+
+
+# ---------------------------------------------------------------------------
+# pool side: where and when the limiter is consulted
+
+def _pool_side(mr, ev, want):
+    import billiard.pool as bp
+    import billiard.common as bc
+    from harness import world as W
+    steps = []           # (now, raised) of every step() call
+
+    class Recording(bc.restart_state):
+        def step(self, now=None):
+            t = bp.monotonic()
+            try:
+                bc.restart_state.step(self, now)
+            except RestartFreqExceeded:
+                steps.append((t, True))
+                raise
+            steps.append((t, False))
+    w = W.World()
+    real = bp.restart_state
+    bp.restart_state = Recording
+    try:
+        p = w.make_pool(2, max_restarts=mr, max_restart_freq=10, lost_worker_timeout=10)
+    finally:
+        bp.restart_state = real
+    if not isinstance(p.restart_state, Recording):
+        return fail('C11:pool:limiter-not-built-from-configuration')
+    nd = ND(ev)
+    admitted_in_window = 0
+    for _ in range(NEV):
+        e = nd.draw(0, 2)
+        if e == 0:
+            k = nd.draw(0, 1)
+            x = p._pool[k]
+            status = (-9, 0, 1, 155)[nd.draw(0, 3)]
+            abnormal = status not in (0, bp.EX_RECYCLE)
+            x.die(status)
+            n_steps, n_started = len(steps), w.started
+            try:
+                w.tick()
+                raised = False
+            except RestartFreqExceeded:
+                raised = True
+            new = steps[n_steps:]
+            if abnormal:
+                if len(new) != 1:
+                    return fail('C11:pool:limiter-not-consulted-exactly-once-per-abnormal-exit')
+            elif new:
+                return fail('C11:pool:clean-or-recycle-exit-consumed-budget')
+            if raised:
+                if not (new and new[-1][1]):
+                    return fail('C11:pool:RestartFreqExceeded-from-nowhere')
+                if w.started != n_started:
+                    return fail('C11:pool:forked-although-the-budget-was-exceeded')
+                if want == 'raise':
+                    return False
+                return True          # the pool is closed by its caller from here on
+            if w.started != n_started + 1 or len(p._pool) != 2:
+                return fail('C11:pool:replacement-not-started')
+        elif e == 1:
+            w.adv(nd.draw(0, 12))
+        else:
+            # a job is accepted: the count starts afresh
+            r = p.apply_async(W.val, ('j',))
+            idle = [x for x in p._pool if x.state == 'idle']
+            w.w_take(idle[0])
+            w.drain_results()
+            if p.restart_state.R != 0:
+                return fail('C11:pool:acceptance-did-not-reset-the-count')
+            w.w_done(idle[0])
+            w.drain_results()
+    return True
+
+
+NEV = tier(3, 5)
+
+
+def h_pool_side(mr: int, ev: List[int]) -> bool:
+    """
+    pre: 1 <= mr <= 2 and len(ev) == 3 * NEV
+    post: _
+    """
+    try:
+        return _pool_side(mr, ev, None)
+    except Prune:
+        return True
+
+
+def h_pool_side_twin(mr: int, ev: List[int]) -> bool:
+    """
+    pre: 1 <= mr <= 2 and len(ev) == 3 * NEV
+    post: _
+    """
+    try:
+        return _pool_side(mr, ev, 'raise')
+    except Prune:
+        return True
+
+
+def h_burst(nproc: int, rounds: int) -> bool:
+    """
+    pre: 1 <= nproc <= 3 and 11 <= rounds <= 13
+    post: _
+    """
+    # Supervisor.body: a burst limiter of 10 restarts per slot per second for exactly the first ten rounds
+    import billiard.pool as bp
+    from harness import world as W
+    from harness.hbase import realize
+    nproc = realize(nproc)
+    rounds = realize(rounds)
+    w = W.World()
+    p = w.make_pool(nproc, max_restarts=7, max_restart_freq=3)
+    configured = p.restart_state
+    seen = []
+    sup = p._worker_handler
+
+    def maintain():
+        rs = p.restart_state
+        seen.append((rs is configured, rs.maxR, rs.maxT))
+        if len(seen) >= rounds:
+            sup._state = bp.CLOSE
+    p._maintain_pool = maintain
+    sup.body()
+    if len(seen) != rounds:
+        return fail('C11:burst:rounds')
+    for k, (is_cfg, maxR, maxT) in enumerate(seen):
+        if k < 10:
+            if is_cfg or maxR != 10 * nproc or maxT != 1:
+                return fail('C11:burst:start-up-limit-not-10-per-slot-per-second')
+        elif not is_cfg:
+            return fail('C11:burst:configured-limiter-not-restored')
+    return True
